@@ -11,4 +11,5 @@ let () =
   | _ :: "store" :: path :: _ -> D_store.run path
   | _ :: "static" :: path :: _ -> D_static.run path
   | _ :: "spec" :: path :: _ -> D_spec.run path
+  | _ :: "dynspec" :: path :: _ -> D_dynspec.run path
   | _ -> prerr_endline "usage: driver <mode> <cases-file> [--thr N]"; exit 2
